@@ -379,6 +379,16 @@ pub fn gen_layers(src: &mut Src, share_numbers: bool) -> Vec<RLayer> {
     }
     layers
 }
+/// Instance names: usually distinct, but nothing requires it; instances read from GDSII have none at all
+pub fn gen_inst_name(src: &mut Src, k: usize) -> String {
+    match src.weighted(&[8, 2, 1, 1, 1]) {
+        0 => format!("i{}", k),
+        1 => String::new(),
+        2 => "i0".to_string(),
+        3 => format!("x {}<{}> ü", k, k),
+        _ => format!("I{}/sub.inst[{}]", k, k),
+    }
+}
 pub fn gen_rawlib(src: &mut Src, o: &RawGenOpts) -> RLib {
     let layers = gen_layers(src, o.shared_purpose_numbers);
     let nc = src.usize_in(1, o.max_cells);
@@ -431,7 +441,7 @@ pub fn gen_rawlib(src: &mut Src, o: &RawGenOpts) -> RLib {
                 let ni = src.usize_in(0, 3);
                 for k in 0..ni {
                     let t = if src.bool() { *targets.last().unwrap() } else { targets[src.index(targets.len())] };
-                    insts.push(RInst { name: format!("i{}", k), target: t, loc: (src.signed(5000), src.signed(5000)), o: Orient::from_index(src.index(8)), none_angle: src.bool() });
+                    insts.push(RInst { name: gen_inst_name(src, k), target: t, loc: (src.signed(5000), src.signed(5000)), o: Orient::from_index(src.index(8)), none_angle: src.bool() });
                 }
             }
             if o.annotations && src.prob(1, 3) {
